@@ -115,6 +115,23 @@ theorem C01_progress {cfg d s} (wf : WF d) (h : Reach cfg d s) (r : List Nat) (h
     ∃ a s', step cfg d s a = some s' :=
   progress cfg d s (reach_inv wf h) r hph
 
+/-- the run always terminates: along ANY schedule the number of actions (starts, deliveries,
+completions, exit) is bounded by a number that depends on the graph only — every action strictly
+decreases the potential `|queue| + Σ weight(node) + [still running]`. With `C01_progress` (something
+is enabled until the end) every maximal schedule therefore ends in `exited`/`aborted`. -/
+theorem C01_terminates {cfg d s} (wf : WF d) (nodes : List Nat) (hn : nodes.Nodup)
+    (hcover : ∀ i, d.member i → i ∈ nodes) (acts : List Act)
+    (hr : runActs cfg d (init d) acts = some s) :
+    acts.length ≤ 1 + (nodes.map (fun i => 2 + (d.down i).length)).sum := by
+  have hm0 : MemInv d (init d) := by intro i hi; simp [init] at hi
+  have := runActs_bounded cfg d wf nodes hn hcover acts _ _ (init_inv cfg d wf) hm0 hr
+  have h0 : potential d nodes (init d) = 1 + (nodes.map (fun i => 2 + (d.down i).length)).sum := by
+    have hw : weight d (init d) = fun i => 2 + (d.down i).length := by
+      funext i; simp [weight, init]
+    simp only [potential, hw]
+    simp [init]; omega
+  omega
+
 /-! ## Non-vacuity: a diamond with two executor children, completed in the "wrong" order -/
 def exF : FinDag :=
   { n := 4, slots := [[], [[0]], [[0]], [[2, 1], [1]]], down := [[2, 1], [3], [3], []],
@@ -139,3 +156,4 @@ end PwVerif.C01
 #print axioms PwVerif.C01.C01_clean
 #print axioms PwVerif.C01.C01_no_error
 #print axioms PwVerif.C01.C01_progress
+#print axioms PwVerif.C01.C01_terminates
